@@ -19,9 +19,11 @@ type subscribeTransaction struct {
 	handler *handler1
 	log     util.Logger
 	topicID uint16
+	// The topicID was registered because of this subscription.
+	newTopicID bool
 }
 
-func newSubscribeTransaction(ctx context.Context, h *handler1, msgID uint16, topicID uint16) *subscribeTransaction {
+func newSubscribeTransaction(ctx context.Context, h *handler1, msgID uint16, topicID uint16, newTopicID bool) *subscribeTransaction {
 	tLog := h.log.WithTag(fmt.Sprintf("REGISTERc(%d)", msgID))
 	tLog.Debug("Created.")
 	return &subscribeTransaction{
@@ -35,6 +37,8 @@ func newSubscribeTransaction(ctx context.Context, h *handler1, msgID uint16, top
 		handler: h,
 		log:     tLog,
 		topicID: topicID,
+
+		newTopicID: newTopicID,
 	}
 }
 
@@ -58,7 +62,9 @@ func (t *subscribeTransaction) Suback(mqSuback *mqPkts.SubackPacket) error {
 		returnCode = snPkts1.RC_NOT_SUPPORTED
 		// The topic ID was registered in advance (see handleSubscribe). The
 		// client does not learn it from a rejected SUBACK, so forget it.
-		t.handler.registeredTopics.Delete(t.topicID)
+		if t.newTopicID {
+			t.handler.registeredTopics.Delete(t.topicID)
+		}
 		t.Fail(fmt.Errorf("MQTT SUBACK return code: %d", mqSuback.ReturnCodes[0]))
 	}
 	snPkt := snPkts1.NewSuback(t.topicID, returnCode, qos)
